@@ -73,6 +73,20 @@ fn main() {
             let code = driver::replay_file(&path, |_v| make_ctx(&args));
             std::process::exit(code);
         }
+        "exec-local" => {
+            // debugging aid: run a replay file's case in this process, stdio not captured
+            let path = args.get(2).cloned().unwrap_or_default();
+            let v: serde_json::Value = serde_json::from_str(&std::fs::read_to_string(&path).expect("read")).expect("json");
+            let eng = engine::engine_by_name(v.get("engine").and_then(|e| e.as_str()).unwrap_or("")).expect("engine");
+            let ctx = make_ctx(&args);
+            job::init_custom_fns();
+            grass_compiler::verif::force_lazies();
+            let case = v.get("case").cloned().unwrap();
+            let h = std::thread::Builder::new().stack_size(eng.stack_bytes()).spawn(move || eng.exec(&ctx, &case)).unwrap();
+            for x in h.join().unwrap() {
+                println!("{} :: {}", x.class, x.detail);
+            }
+        }
         "corpus" => {
             let ctx = make_ctx(&args);
             let n = ctx.corpus.len();
